@@ -56,6 +56,9 @@ type Monitors struct {
 	leases   map[uuid.UUID]*leaseRecord
 	acked    map[uuid.UUID]int64    // delivery id -> instant of the successful ack
 	lastSeek map[uuid.UUID]int64    // subscription id -> instant of the last seek
+	// the retry policy each subscription was asked to have (CreateSubscription / UpdateSubscription
+	// requests; 0 = not given), independent of what the implementation stored
+	policy map[uuid.UUID][2]int64
 	reopened map[uuid.UUID]bool     // deliveries re-opened by a seek at some point
 	handouts map[uuid.UUID]int      // delivery id -> number of times handed out (since last re-open)
 	snaps    map[string]*snapRecord // by snapshot name
@@ -78,7 +81,7 @@ type LinkMis struct {
 
 func NewMonitors() *Monitors {
 	return &Monitors{pubs: map[uuid.UUID]*pubRecord{}, leases: map[uuid.UUID]*leaseRecord{}, acked: map[uuid.UUID]int64{},
-		lastSeek: map[uuid.UUID]int64{}, reopened: map[uuid.UUID]bool{}, handouts: map[uuid.UUID]int{}, snaps: map[string]*snapRecord{},
+		policy: map[uuid.UUID][2]int64{}, lastSeek: map[uuid.UUID]int64{}, reopened: map[uuid.UUID]bool{}, handouts: map[uuid.UUID]int{}, snaps: map[string]*snapRecord{},
 		lastPull: map[uuid.UUID]int64{}, dlDone: map[uuid.UUID]bool{}, Counts: map[string]int{}, linkMissing: map[uuid.UUID]bool{}, seekAcked: map[uuid.UUID]bool{}}
 }
 
@@ -273,6 +276,9 @@ func (m *Monitors) Observe(idx int, r *Result) {
 			m.handouts[id] = 0
 			if op.K != "seek_time" && op.K != "seek_snap" {
 				m.fire("C03", "resurrect", "operation %s re-opened completed delivery %s", op.K, id)
+			} else if s := liveSubByName(r.SubsBefore, SubName(op.Sub)); s == nil || s.ID != b.SubscriptionID {
+				// only the subscription that is sought may be rewound
+				m.fire("C03", "resurrect-other-sub", "Seek on subscription %s re-opened completed delivery %s of another subscription", op.Sub, id)
 			}
 		}
 	}
@@ -325,6 +331,9 @@ func (m *Monitors) Observe(idx int, r *Result) {
 		if ok {
 			if s := liveSubByName(r.SubsAfter, SubName(op.Sub)); s != nil {
 				m.lastPull[s.ID] = now
+				if op.Cfg != nil {
+					m.policy[s.ID] = [2]int64{op.Cfg.MinB, op.Cfg.MaxB}
+				}
 			}
 		}
 	case "publish":
@@ -504,6 +513,10 @@ func (m *Monitors) Observe(idx int, r *Result) {
 				m.fire("C04", "attempt-number", "delivery %s with %d previous attempts reported as attempt %d", d.ID, b.Attempts, d.Attempt)
 			}
 			minB, maxB := subBackoff(sub)
+			if pol, known := m.policy[sub.ID]; known {
+				// the policy the client asked for, not the one the implementation says it stored
+				minB, maxB = &pol[0], &pol[1]
+			}
 			nominal := NominalNs(minB, maxB, d.Attempt)
 			tol := nominal/(1<<40) + 2
 			a := r.After[d.ID]
@@ -595,6 +608,9 @@ func (m *Monitors) Observe(idx int, r *Result) {
 			if isOpenRow(b, now) && a.CompletedAt == nil {
 				sub := r.SubsBefore[b.SubscriptionID]
 				minB, maxB := subBackoff(sub)
+				if pol, known := m.policy[b.SubscriptionID]; known {
+					minB, maxB = &pol[0], &pol[1]
+				}
 				nominal := NominalNs(minB, maxB, b.Attempts)
 				tol := nominal/(1<<40) + 2
 				d := ns(a.AttemptAt) - now
@@ -764,6 +780,20 @@ func (m *Monitors) Observe(idx int, r *Result) {
 		// UpdateSubscription(expiration_policy): the subscription's expiry clock restarts with the new TTL
 		if ok && op.Rpc != nil && op.Rpc.Kind == "updateSub" && op.Rpc.Sub != nil {
 			for _, pth := range op.Rpc.Paths {
+				if pth == "retry_policy" {
+					if s := liveSubByName(r.SubsAfter, op.Rpc.Sub.Name); s != nil {
+						var pol [2]int64
+						if op.Rpc.Sub.HasRetry {
+							if op.Rpc.Sub.RetryMin != nil {
+								pol[0] = *op.Rpc.Sub.RetryMin
+							}
+							if op.Rpc.Sub.RetryMax != nil {
+								pol[1] = *op.Rpc.Sub.RetryMax
+							}
+						}
+						m.policy[s.ID] = pol
+					}
+				}
 				if pth != "expiration_policy" || op.Rpc.Sub.Expiration == nil || *op.Rpc.Sub.Expiration <= 0 {
 					continue
 				}
